@@ -87,10 +87,7 @@ def handleC20 (r : Req) : Option Resp :=
   | "c20.searchsorted" => some (byPrec r runSearch runSearch)
   | "c20.cbrt" => some (byPrec r runCbrt runCbrt)
   | "c20.temp" => some (byPrec r runTemp runTemp)
-  | "c20.kde" =>
-    -- torchutils.py:171-173: `torch.eye(D)` has the default dtype (float32); with float64 inputs `a @ precision` raises.
-    -- The value the float64 formula would give is still returned so that a repaired implementation can be recognised.
-    some (if r.prec == "f32" then runKde float32X r else { runKde floatX r with err := some "RuntimeError" })
+  | "c20.kde" => some (byPrec r runKde runKde)
   | "c20.logabsdet" =>
     let n := r.nat 0
     let m : List (List Int) := chunk20 n ((jArr (jField r.raw "data")).map jInt).toList
